@@ -406,7 +406,9 @@ def substitution_compare():
     # calls: several per line, nested parentheses, argument order, arity, redefinition
     d = "#define F(a,b) a-b"
     for call, want in (("x = F(1,2) + F(3,4)", "x = 1-2 + 3-4"), ("y = F(g(1,2),3)", "y = g(1,2)-3"), ("z = F(b,a)", "z = b-a"),
-                       ("w = F(1)", "w = F(1)"), ("v = F (s, t)*F(F(1,2),3)", None), ("u = F(h(1,(2,3)), k(4))", "u = h(1,(2,3))- k(4)")):
+                       ("w = F(1)", "w = F(1)"), ("v = F (s, t)*F(F(1,2),3)", None), ("u = F(h(1,(2,3)), k(4))", "u = h(1,(2,3))-k(4)"),
+                       # white space around an argument is not part of it
+                       ("t = F(1, 2)", "t = 1-2"), ("s = F( p , q )", "s = p-q"), ("r = F(g(1, 2) ,3)", "r = g(1, 2)-3")):
         if want is not None:
             run("function_like_calls", [d, call], [d, want])
     run("function_like_calls", ["#define E() 42", "q = E() + E()"], ["#define E() 42", "q = 42 + 42"])
